@@ -359,6 +359,8 @@ class Renderer:
             return self.dev_text(s)
         if isinstance(s, A.Rem):
             return K('REM') + (' ' + s.text if s.text else '')
+        if isinstance(s, A.Raw):
+            return s.text
         raise TypeError(s)
 
     def dev_text(self, s):
@@ -568,7 +570,10 @@ class Renderer:
             return
         # simple statements
         txt = self.simple_text(s)
-        if isinstance(s, (A.Rem, A.Data)):
+        if isinstance(s, A.Raw):
+            self.emit(txt, s, alone=s.alone)
+            self.no_comment = True
+        elif isinstance(s, (A.Rem, A.Data)):
             self.emit(txt, s, last=True)
             self.no_comment = True
         elif isinstance(s, A.CallSub) and not txt.upper().startswith('CALL') \
